@@ -11,6 +11,7 @@ import (
 	"crypto/x509"
 	"crypto/x509/pkix"
 	"encoding/pem"
+	"fmt"
 	"io"
 	"log"
 	"math/big"
@@ -380,7 +381,8 @@ func (p *Proxy) Stop() error {
 	return err
 }
 
-// CertPairsPEM returns n freshly generated ECDSA certificate/key pairs as PEM; pair i has serial i+1.
+// CertPairsPEM returns n freshly generated ECDSA certificate/key pairs as PEM; pair i has serial i+1 and is
+// issued for the one name p<i+1>.verif.test (a rotation may change the names a certificate covers).
 func CertPairsPEM(n int) [][2][]byte {
 	var out [][2][]byte
 	for i := 0; i < n; i++ {
@@ -389,7 +391,7 @@ func CertPairsPEM(n int) [][2][]byte {
 			panic(err)
 		}
 		tmpl := &x509.Certificate{SerialNumber: big.NewInt(int64(i + 1)), Subject: pkix.Name{CommonName: "verif.test"}, NotBefore: time.Now().Add(-time.Hour), NotAfter: time.Now().Add(24 * time.Hour),
-			KeyUsage: x509.KeyUsageDigitalSignature, DNSNames: []string{"verif.test"}}
+			KeyUsage: x509.KeyUsageDigitalSignature, DNSNames: []string{fmt.Sprintf("p%d.verif.test", i+1)}}
 		der, err := x509.CreateCertificate(rand.Reader, tmpl, tmpl, &k.PublicKey, k)
 		if err != nil {
 			panic(err)
